@@ -49,6 +49,7 @@ class PlanJoin:
                 and len(query_info['integrations']) == 1
                 and 'files' not in query_info['integrations']
                 and 'views' not in query_info['integrations']
+                and len(query_info['user_functions']) == 0
         ):
 
             int_name = list(query_info['integrations'])[0]
